@@ -291,7 +291,25 @@ def creators_refuse_existing(prog, chk, rid):
             k = reach[k][1]
             chain.append(reach[k][0])
         refused = set()
+        # ... or by a repository function one of them calls (the refusal factored into a helper)
+        helpers = []
         for g in chain:
+            for e in cg.edges(g):
+                for t in e.targets:
+                    if t.body is not None and prog.in_repo(t.file) and t.key not in [h.key for h in chain + helpers]:
+                        helpers.append(t)
+        from . import c03 as _c03
+        for g in chain + helpers:
+            named = _c03._single_assignment_locals(g)
+
+            def xwalk(node, depth=0, named=named):
+                for z in walk(node):
+                    yield z
+                    if z.get('kind') == 'DeclRefExpr' and depth < 3:
+                        d = named.get((z.get('referencedDecl') or {}).get('id'))
+                        if d is not None and 'bool' in (z.get('type') or ''):
+                            for w in xwalk(d, depth + 1):
+                                yield w
             for st in walk(g.body):
                 if st.get('kind') != 'IfStmt':
                     continue
@@ -299,11 +317,11 @@ def creators_refuse_existing(prog, chk, rid):
                 if not any(x.get('kind') == 'CXXThrowExpr' for x in walk(c[1])):
                     continue
                 negated = set()
-                for x in walk(c[0]):
+                for x in xwalk(c[0]):
                     if x.get('kind') == 'UnaryOperator' and x.get('opcode') == '!':
-                        for y in walk(children(x)[0]):
+                        for y in xwalk(children(x)[0]):
                             negated.add(id(y))
-                for x in walk(c[0]):
+                for x in xwalk(c[0]):
                     if x.get('kind') == 'CallExpr' and len(children(x)) > 1 and id(x) not in negated and \
                             c16._is_existence_test(prog, g, x):
                         sp = c16._sym_path(prog, g, children(x)[1])
